@@ -8,7 +8,7 @@ use crate::opt::{run_script, steps_inner, ForcedPolicy, OptCfg, RunOut, WorsePol
 use crate::probe::{Decision, Expect};
 
 pub const TITLE: &str = "Moves are accepted according to the Metropolis rule";
-pub const RULE: &str = "part deterministic: cyclic scripts of forced outcomes on synthetic states (2..8 parameters, 1..20 loops, kT = 0 or 1e-3..10): better by 1e-300..1e100 => accepted, equal => accepted, undefined => rejected, worse at kT=0 => rejected; the outcome of every step is read off the next proposal (which state it derives from); steps whose outcome cannot be read (two consecutive proposals on one coordinate, or a move clamped to no change) are excluded. part frequencies: constant temperature (one loop, or several loops with kt_ratio=0), 8 parameters on [0,1] starting at 0.5 with max_step 1e-3 (never clamped), every proposal scripted worse by d; 12 (d,kT) pairs with exp(-d/kT) in [0.02,0.98] including kT=1e-6 and kT=100; N counted trials (quick >= 4000, thorough >= 100000); accepted iff |p_hat - exp(-d/kT)| <= 6 sqrt(p(1-p)/N) + 1/N. Non-trivial = a frequency trial with 0.02<p<0.98, or a deterministic script in which all four kinds of step were resolved; distinct by hash of the case.";
+pub const RULE: &str = "part deterministic: cyclic scripts of forced outcomes on synthetic states (2..8 parameters, 1..20 loops, kT = 0 or 1e-3..10, with and without a finishing temperature or cooling ratio): better by 1e-300..1e100 => accepted, equal => accepted, undefined => rejected, worse at kT=0 => rejected; the outcome of every step is read off the next proposal (which state it derives from); steps whose outcome cannot be read (two consecutive proposals on one coordinate, or a move clamped to no change) are excluded. part frequencies: constant temperature (one loop, or several loops with kt_ratio=0), 8 parameters on [0,1] starting at 0.5 with max_step 1e-3 (never clamped), every proposal scripted worse by d; 12 fixed (d,kT) pairs with exp(-d/kT) in [0.02,0.98] including kT=1e-6 and kT=100, and generated pairs with d/kT log-uniform in [0.02,4] at kT log-uniform in [1e-6,100]; N counted trials per case (quick 2e5, thorough 2e6: a 6-sigma test then resolves an absolute bias of about 0.7% / 0.2%); accepted iff |p_hat - exp(-d/kT)| <= 6 sqrt(p(1-p)/N) + 1/N. Non-trivial = a frequency trial with 0.02<p<0.98, or a deterministic script in which all four kinds of step were resolved; distinct by hash of the case.";
 
 pub fn assumptions() -> Vec<&'static str> {
     vec![
@@ -45,8 +45,9 @@ fn det_strat(_: &Ctx) -> BoxedStrategy<DetCase> {
         any::<u64>(),
         2usize..=8,
         proptest::collection::vec(det_decision(), 1..48),
+        prop_oneof![2 => Just(None), 1 => Just(Some(0.001)), 1 => Just(Some(0.1)), 1 => Just(Some(0.))],
     )
-        .prop_map(|((steps, inner), kt_start, kt_ratio, max_step, seed, n, decisions)| DetCase { cfg: OptCfg { steps, inner, kt_start, kt_finish: None, kt_ratio, max_step, convergence: None, seed }, n, decisions })
+        .prop_map(|((steps, inner), kt_start, kt_ratio, max_step, seed, n, decisions, kt_finish)| DetCase { cfg: OptCfg { steps, inner, kt_start, kt_finish, kt_ratio, max_step, convergence: None, seed }, n, decisions })
         .boxed()
 }
 
@@ -86,18 +87,30 @@ fn judge_deterministic(out: &RunOut, cfg: &OptCfg) -> Result<[u64; 4], String> {
         }
     }
     if let Some((k, msg)) = &out.inconsistency {
-        // the model follows the rule; a proposal it cannot explain means the previous forced decision went the other way
-        if *k >= 2 && *k - 2 < out.steps.len() {
+        // the model follows the rule; a proposal it cannot explain means either that the previous forced decision
+        // went the other way (this property's subject) or that the state was corrupted (C06's subject). Only the
+        // former is reported: the unexplained proposal must derive from the *other* outcome of the previous step.
+        if *k >= 2 && *k - 1 < out.steps.len() {
             let prev = &out.steps[k - 2];
-            let what = match (prev.returned, prev.expect) {
-                (None, _) => "a proposal without a defined score was accepted",
-                (Some(_), Some(Expect::Accept)) => "a better or equal proposal was rejected",
-                (Some(_), Some(Expect::Reject)) => "a worse proposal was accepted at kT = 0",
-                _ => "the trace is inconsistent with any accept/reject history",
+            let cur = &out.steps[k - 1];
+            let near = |a: &[f64], b: &[f64]| a.iter().zip(b.iter()).filter(|(x, y)| x.to_bits() != y.to_bits()).count() <= 1;
+            let other_world = match prev.expect {
+                Some(Expect::Accept) => prev.base.as_ref().map(|b| near(b, &cur.proposal)).unwrap_or(false),
+                Some(Expect::Reject) => near(&prev.proposal, &cur.proposal),
+                _ => false,
             };
-            return Err(format!("{} (proposal #{}: score {:?}, current {:?}); next proposal: {}", what, prev.k, prev.returned, prev.base_score, msg));
+            if other_world {
+                let what = match (prev.returned, prev.expect) {
+                    (None, _) => "a proposal without a defined score was accepted",
+                    (Some(_), Some(Expect::Accept)) => "a better or equal proposal was rejected",
+                    (Some(_), Some(Expect::Reject)) => "a worse proposal was accepted at kT = 0",
+                    _ => "the previous forced decision went the other way",
+                };
+                return Err(format!("{} (proposal #{}: score {:?}, current {:?}); next proposal: {}", what, prev.k, prev.returned, prev.base_score, msg));
+            }
         }
-        return Err(format!("inconsistent trace: {}", msg));
+        // corrupted trace: not judged here
+        return Ok(seen);
     }
     Ok(seen)
 }
@@ -132,7 +145,11 @@ fn det_oracle(c: &DetCase, rec: &Rec, _: &Ctx) -> Result<(), String> {
 
 #[derive(Clone, Debug, Serialize, Deserialize)]
 pub struct FreqCase {
+    /// index into PAIRS, or PAIRS.len() for the generated (x, kt) below
     pub pair: usize,
+    /// d / kT for a generated pair
+    pub x: f64,
+    pub kt: f64,
     pub loops: u64,
     pub seed: u64,
 }
@@ -154,7 +171,10 @@ pub const PAIRS: [(f64, f64); 12] = [
 ];
 
 fn freq_strat(_: &Ctx) -> BoxedStrategy<FreqCase> {
-    (0usize..12, prop_oneof![Just(1u64), Just(4u64), Just(10u64)], any::<u64>()).prop_map(|(pair, loops, seed)| FreqCase { pair, loops, seed }).boxed()
+    // half of the cases use the fixed grid, half a generated ratio d/kT log-uniform in [0.02, 4] at a generated kT
+    (0usize..24, (-1.7..0.6f64).prop_map(|e| 10f64.powf(e)), (-6.0..2.0f64).prop_map(|e| 10f64.powf(e)), prop_oneof![Just(1u64), Just(4u64), Just(10u64)], any::<u64>())
+        .prop_map(|(pair, x, kt, loops, seed)| FreqCase { pair: pair.min(12), x, kt, loops, seed })
+        .boxed()
 }
 
 pub struct Counted {
@@ -183,8 +203,8 @@ pub fn count_worse_trials(out: &RunOut, first: usize, last: usize) -> Counted {
 }
 
 fn freq_oracle(c: &FreqCase, rec: &Rec, ctx: &Ctx) -> Result<(), String> {
-    let (d, kt) = PAIRS[c.pair % PAIRS.len()];
-    let want_trials: u64 = if ctx.tier == Tier::Quick { 4000 } else { 100_000 };
+    let (d, kt) = if c.pair < PAIRS.len() { PAIRS[c.pair] } else { (c.x * c.kt, c.kt) };
+    let want_trials: u64 = if ctx.tier == Tier::Quick { 200_000 } else { 2_000_000 };
     let inner = (want_trials * 8 / 7 + 600) / c.loops;
     let steps = inner * c.loops;
     let cfg = OptCfg { steps, inner, kt_start: kt, kt_finish: None, kt_ratio: Some(0.), max_step: 1e-3, convergence: None, seed: c.seed };
@@ -208,7 +228,7 @@ fn freq_oracle(c: &FreqCase, rec: &Rec, ctx: &Ctx) -> Result<(), String> {
     if (phat - p).abs() > tol {
         return Err(format!("moves worse by d = {} at kT = {} were accepted with frequency {:.5} ({} of {}), the Metropolis probability is exp(-d/kT) = {:.5} (6-sigma tolerance {:.5}; {} loops)", d, kt, phat, cnt.accepted, cnt.trials, p, tol, c.loops));
     }
-    let class = format!("frequency/pair{}/loops{}", c.pair, c.loops);
+    let class = if c.pair < PAIRS.len() { format!("frequency/pair{}/loops{}", c.pair, c.loops) } else { format!("frequency/generated/d-over-kT-{}", if d / kt < 0.1 { "<0.1" } else if d / kt < 0.5 { "0.1..0.5" } else if d / kt < 1.5 { "0.5..1.5" } else { ">1.5" }) };
     rec.class(&class);
     rec.nontrivial(hash_json(&serde_json::to_value(c).unwrap()));
     if rec.wants_sample(&class) {
@@ -218,5 +238,5 @@ fn freq_oracle(c: &FreqCase, rec: &Rec, ctx: &Ctx) -> Result<(), String> {
 }
 
 pub fn parts() -> Vec<PartDef> {
-    vec![part("deterministic", 60_000, 1_200_000, det_strat, det_oracle), part("frequencies", 1_440, 4_800, freq_strat, freq_oracle)]
+    vec![part("deterministic", 60_000, 1_200_000, det_strat, det_oracle), part("frequencies", 240, 1_200, freq_strat, freq_oracle)]
 }
